@@ -88,10 +88,13 @@ func H_roundtrip() {
 		in[i] = symAlphaByte(alpha)
 	}
 	b2, cut, bufsz := true, n, 64
-	if symParam("VARIANTS", 1) == 1 {
+	switch symParam("VARIANTS", 1) {
+	case 1:
 		b2 = symInt(0, 1) == 1
 		cut = symInt(-1, n)
 		bufsz = [...]int{1, 64}[symInt(0, 1)]
+	case 2: // write chunking only
+		cut = symInt(-1, n)
 	}
 	hdr := 4
 	if b2 {
@@ -178,5 +181,59 @@ func H_tables() {
 	// decoding table inverts the encoding table
 	symAssert(int(dCode[pCode[j]]) == j && dLen[pCode[j]] == pLen[j], "tables-inverse")
 	symAssert(_N == 2048 && _F == 60 && _Threshold == 2 && _MaxFreq == 0x8000, "canonical-parameters")
+	symReach("end")
+}
+
+// C06/C07 K2b: window-wrap mirror region.  The 60th byte of a candidate match
+// that starts at the end of the ring buffer is read from the mirror copy
+// textBuf[N .. N+F-2].  Template: filler so that a block of RUN bytes 'q'
+// followed by a symbolic byte X starts at ring index DELTA+1988 (DELTA = 59 is
+// index 2047), later the same run followed by a byte Y; X is symbolic (all 256
+// values), Y ranges over {0x00, 'q', X, X+1}.  Round trip through the library
+// and through the independent reference decoder.
+func H_window_mirror() {
+	deltas := [...]int{59, 58, 60}
+	runs := [...]int{59, 58}
+	delta := deltas[symInt(0, symParam("NDELTA", 1)-1)]
+	run := runs[symInt(0, symParam("NRUN", 1)-1)]
+	x := symByte()
+	var y byte
+	switch symInt(0, symParam("NY", 2)-1) {
+	case 0:
+		y = 0
+	case 1:
+		y = x
+	case 2:
+		y = 'q'
+	case 3:
+		y = x + 1
+	}
+	var in []byte
+	fill := func(n int, seed byte) {
+		for i := 0; i < n; i++ {
+			in = append(in, 'A'+byte((int(seed)+i*7)%23)) // no long repeats, never 'q'
+			if i%5 == 4 {
+				in[len(in)-1] = byte('0' + (i/5)%10)
+			}
+		}
+	}
+	fill(delta, 1)
+	for i := 0; i < run; i++ {
+		in = append(in, 'q')
+	}
+	in = append(in, x)
+	fill(150, 9)
+	for i := 0; i < run; i++ {
+		in = append(in, 'q')
+	}
+	in = append(in, y)
+	fill(20, 4)
+	z, err := compress(in, len(in), true)
+	symAssert(err == nil, "writer-close-ok")
+	out, rerr, cerr := decompress(z, true, 64, len(in)+3)
+	symAssert(rerr == nil && cerr == nil, "reader-ok")
+	symAssert(sameBytes(out, in), "roundtrip-reproduces-input")
+	ref, _ := refDecode(z[6:], len(in), len(in)+64)
+	symAssert(sameBytes(ref, in), "reference-decoder-reproduces-input")
 	symReach("end")
 }
